@@ -8,6 +8,10 @@
 //   mo <ch> <w> <h> <ks> <cy> <cx> <iters> | kernel (ks*ks, row-major) | plane_0 | ...
 //     -> "w h : dilate | erode | opening | closing | opening(opening) | closing(closing)"  (each: all planes, separated by /)
 //   me <ch> <w> <h> <k> | plane_0 | ...        median_filter(src, dst, k)
+//   adT <ch> <mean|gauss> <w> <h> <k> | src    the local-threshold surface: the same convolution call threshold_adaptive makes
+//        (convolve_1d with the 1/k float kernel resp. convolve_2d with generate_gaussian_kernel(k, 1.0)) -> "w h : T plane"
+//   ad <ch> <mean|gauss> <reg|inv> <w> <h> <k> <constant> <maxv> | src | T      threshold_adaptive(src, dst, maxv, k, method, dir, constant)
+//        (T is only read by the model / judge: the claimed surface; the real function computes its own) -> "w h : dst plane"
 #define BOOST_ENABLE_ASSERT_HANDLER
 #include <string>
 struct hv_assert_failure { std::string expr; };
@@ -19,6 +23,8 @@ inline void assertion_failed_msg(char const* expr, char const*, char const*, cha
 #include <boost/gil/image_processing/threshold.hpp>
 #include <boost/gil/image_processing/morphology.hpp>
 #include <boost/gil/image_processing/filter.hpp>
+#include <boost/gil/image_processing/numeric.hpp>
+#include <boost/gil/image_processing/convolve.hpp>
 #include "harness.hpp"
 namespace gil = boost::gil;
 using ll = long long;
@@ -115,6 +121,36 @@ std::string me(Op const& op) {
     return dims(gil::view(dst)) + planes_of(gil::view(dst), " |");
 }
 
+template <class Img>
+std::string adT(Op const& op) {
+    auto const& hd = op.head;
+    bool gauss = hd[2] == "gauss"; ll w = hv::to_ll(hd[3]), h = hv::to_ll(hd[4]); std::size_t k = (std::size_t)hv::to_ll(hd[5]);
+    Img src(w, h); load(gil::view(src), op.groups, 0);
+    Img tmp(w, h);
+    if (!gauss) {
+        std::vector<float> mean_kernel_values(k, 1.0f / k);
+        gil::kernel_1d<float> kernel(mean_kernel_values.begin(), k, k / 2);
+        gil::detail::convolve_1d<gil::pixel<float, typename Img::value_type::layout_t>>(gil::const_view(src), kernel, gil::view(tmp));
+    } else {
+        gil::detail::kernel_2d<float> kernel = gil::generate_gaussian_kernel(k, 1.0);
+        gil::detail::convolve_2d(gil::const_view(src), kernel, gil::view(tmp));
+    }
+    return dims(gil::view(tmp)) + planes_of(gil::view(tmp), " |");
+}
+template <class Img>
+std::string ad(Op const& op) {
+    auto const& hd = op.head;
+    using C = typename gil::channel_type<typename Img::view_t>::type;
+    bool gauss = hd[2] == "gauss", inv = hd[3] == "inv"; ll w = hv::to_ll(hd[4]), h = hv::to_ll(hd[5]); std::size_t k = (std::size_t)hv::to_ll(hd[6]);
+    ll cst = hv::to_ll(hd[7]), mx = hv::to_ll(hd[8]);
+    Img src(w, h); load(gil::view(src), op.groups, 0);
+    Img dst(w, h); fillv(gil::view(dst), 77);
+    gil::threshold_adaptive(gil::const_view(src), gil::view(dst), C(mx), k,
+        gauss ? gil::threshold_adaptive_method::gaussian : gil::threshold_adaptive_method::mean,
+        inv ? gil::threshold_direction::inverse : gil::threshold_direction::regular, C(cst));
+    return dims(gil::view(dst)) + planes_of(gil::view(dst), " |");
+}
+
 int main() {
     return hv::run([](std::string const& line) -> std::string {
       try {
@@ -165,6 +201,18 @@ int main() {
             if (c == "u16") return me<gil::gray16_image_t>(op);
             if (c == "i16") return me<gil::gray16s_image_t>(op);
             if (c == "rgb8") return me<gil::rgb8_image_t>(op);
+            return "bad-op";
+        }
+#endif
+#ifdef PT_E
+        if (h[0] == "adT" && h.size() == 6) {
+            if (h[1] == "u8") return adT<gil::gray8_image_t>(op);
+            if (h[1] == "u16") return adT<gil::gray16_image_t>(op);
+            return "bad-op";
+        }
+        if (h[0] == "ad" && h.size() == 9) {
+            if (h[1] == "u8") return ad<gil::gray8_image_t>(op);
+            if (h[1] == "u16") return ad<gil::gray16_image_t>(op);
             return "bad-op";
         }
 #endif
